@@ -161,7 +161,7 @@ def build_case(prop, b):
         for i in range(1, len(stmts) + 2):
             for e in ed:
                 if e["t"] == "cpp" and e["pos"] == i:
-                    flines.extend(perturb.CPP[e["a"]])
+                    flines.extend(perturb.CPP[e["a"]] + (perturb.CPP[e["b"]] if e.get("b") else []))
             if i <= len(stmts):
                 flines.extend(per[i - 1])
         if not any(e["t"] == "cmt" for e in ed):
@@ -408,9 +408,10 @@ def events_for(prop, case, res, D, ctr):
                         exp_keep.append(("c", perturb.AFTER_BREAK))
                         exp_dirs.append(("c", perturb.AFTER_BREAK))
                 else:
-                    p = ("p", perturb.cpp_norm("\n".join(perturb.CPP[e["a"]])))
-                    exp_keep.append(p)
-                    exp_dirs.append(p)
+                    for f_ in [e["a"]] + ([e["b"]] if e.get("b") else []):
+                        p = ("p", perturb.cpp_norm("\n".join(perturb.CPP[f_])))
+                        exp_keep.append(p)
+                        exp_dirs.append(p)
 
         def real(name, exp=None):
             lv = R[name].get("leaves")
@@ -526,7 +527,7 @@ def events_for(prop, case, res, D, ctr):
 def signature(prop, case, res, clause):
     sig = {}
     if prop == "C14":
-        forms = sorted({e["a"] for e in case["ed"] if e["t"] == "cpp"})
+        forms = sorted({e["a"] for e in case["ed"] if e["t"] == "cpp"} | {e["b"] for e in case["ed"] if e["t"] == "cpp" and e.get("b")})
         sig["has_angle_include"] = 18 in forms
         # known finding KF-C14-1 is exactly: '#include <sys.h>' comes back as '#include "sys.h"' - and nothing else differs
         only = 18 in forms
